@@ -854,7 +854,15 @@ class SimNet:
                 waiter.set_result(None)
 
         loop.call_soon(made)
-        await waiter
+
+        # as asyncio's _create_connection_transport: a caller cancelled
+        # while the connection is being set up does not leave it behind
+        try:
+            await waiter
+        except BaseException:
+            ctrans.close()
+            raise
+
         return ctrans, protocol
 
     async def connect_read_pipe(self, protocol_factory, pipe):
